@@ -149,13 +149,15 @@ Section Flux.
     let '(m, p, e) := fl in (m * s, mkv (vx p * s) (vy p * s) (vz p * s), e * s).
   Definition flux5 (fl : flux F) : v5 := let '(m, p, e) := fl in mk5 m (vx p) (vy p) (vz p) e.
 
-  (* the limited flux through the face, the quantity subtracted from the left and added to the right cell *)
-  Definition pair_flux (gamma : F) (i : Z) (L R : cell) (dx A dt : F) : v5 :=
+  (* the limited flux through the face, the quantity subtracted from the left and added to the right cell
+     (second component: the limiter factor, reported by the correspondence driver as a coverage tag) *)
+  Definition pair_flux_ff (gamma : F) (i : Z) (L R : cell) (dx A dt : F) : v5 * F :=
     let '(rhoL, vL, PL, rhoR, vR, PR) := face_states i (prim L) (grad L) (prim R) (grad R) dx in
     let normal := vset i vzero 1 in
     let '(m, p, e) := scale_flux (riemann rhoL vL PL rhoR vR PR normal) A in
     let ff := pair_fluxfac gamma L R m p e dt in
-    flux5 (scale_flux (m, p, e) ff).
+    (flux5 (scale_flux (m, p, e) ff), ff).
+  Definition pair_flux (gamma : F) (i : Z) (L R : cell) (dx A dt : F) : v5 := fst (pair_flux_ff gamma i L R dx A dt).
 
   (* ---- boundary conditions: HydroBoundary::get_right_state_flux_variables; kind 0 inflow, 1 outflow, 2 reflective ---- *)
   Definition ghost_state (kind i : Z) (orient : F) (pL : v5) (gL : g5) : v5 * g5 :=
@@ -191,12 +193,13 @@ Section Flux.
     let '(pR, gR) := ghost_state kind i (orientation dx) (prim L) (grad L) in
     face_states i (prim L) (grad L) pR gR dx.
 
-  Definition ghost_flux (gamma : F) (kind i : Z) (L : cell) (dx A dt : F) : v5 :=
+  Definition ghost_flux_ff (gamma : F) (kind i : Z) (L : cell) (dx A dt : F) : v5 * F :=
     let '(rhoL, vL, PL, rhoR, vR, PR) := ghost_input kind i L dx in
     let normal := vset i vzero (orientation dx) in
     let '(m, p, e) := scale_flux (riemann rhoL vL PL rhoR vR PR normal) A in
     let ff := ghost_fluxfac gamma L m p e dt in
-    flux5 (scale_flux (m, p, e) ff).
+    (flux5 (scale_flux (m, p, e) ff), ff).
+  Definition ghost_flux (gamma : F) (kind i : Z) (L : cell) (dx A dt : F) : v5 := fst (ghost_flux_ff gamma kind i L dx A dt).
 
   (* delta_conserved -= f  /  += f *)
   Definition bump (c : cell) (plus : bool) (f : v5) : cell :=
